@@ -302,6 +302,11 @@ PoleLaw(e) ==
     \cup (IF m.nonfinite = 0 /\ ~Le(m, "dev") THEN {"pole:value"} ELSE {})
     \cup (IF m.nonfinite = 0 /\ ~Le(m, "back") THEN {"pole:direction"} ELSE {})
     \cup (IF m.nonfinite = 0 /\ ~Le(m, "unit") THEN {"pole:unit"} ELSE {})
+    \* the poles of an orientation set are a function of the set: a call that returns must leave the caller's
+    \* array as it was (otherwise the next call on the same set answers a different question), and it must
+    \* return for every in-memory representation of the same values (argmod: largest change of the argument)
+    \cup (IF Has(m, "raised") /\ m.raised # 0 THEN {"pole:raised"} ELSE {})
+    \cup (IF m.nonfinite = 0 /\ Has(m, "argmod") /\ m.argmod # 0 THEN {"pole:argument-modified"} ELSE {})
 LamLaw(e) ==
   LET m == e.m IN
     (IF m.nonfinite = 0 THEN {} ELSE {"lambert:nan"})
